@@ -32,7 +32,8 @@ RULE = (
     "NON-CONVEX grids (5 dart-quadrilateral grids); `partition_arguments` num_subproblems in "
     "{1 (main alphabet), 2, 3} on one grid per family, C/T(3,2)@map and a dart grid; sequences: ONE "
     "Biot object (and stiffness / coupling objects) used for two grids in a row (same sizes / "
-    "different topology; same topology / different geometry; the same grid object moved)"
+    "different topology; same topology / different geometry; the same grid object moved); 4 prism "
+    "grids (grid_extrusion of triangle grids: 3- and 4-node faces)"
 )
 ASSUMPTIONS = [
     "all mechanical boundary faces Dirichlet with data u(x_f); constant isotropic stiffness",
@@ -63,6 +64,12 @@ DARTS = [  # valid non-convex (dart) quadrilaterals: an interior node moved past
     {"kind": "cart", "n": [2, 2], "set": [[4, [0.9, 0.88]]]},
     {"kind": "cart", "n": [3, 2], "set": [[5, [0.06, 0.1]]]},
     {"kind": "cart", "n": [3, 3], "set": [[5, [0.05, 0.07]], [10, [0.95, 0.93]]]},
+]
+PRISMS = [  # extruded triangle grids: cells with triangular AND quadrilateral faces
+    {"kind": "prism", "n": [2, 2], "z": [0, 0.4, 1]},
+    {"kind": "prism", "n": [2, 1], "z": [0, 0.4, 1]},
+    {"kind": "prism", "n": [2, 2], "z": [0, 0.4, 1], "pert": [[4, [1, -1]]]},
+    {"kind": "prism", "n": [2, 1], "z": [0, 0.4, 1], "map": "shear"},
 ]
 MULAM = [(1.0, 1.0), (1.0, 10.0), (3.0, 0.0)]
 ALPHAS = {"one": 1.0, "frac": 0.7, "iso": 1.3}
@@ -135,6 +142,10 @@ def cases(tier):
     part_grids = fam + [{"kind": "cart", "n": [3, 2], "map": "shear"}, {"kind": "tri", "n": [3, 2], "map": "skew"}, DARTS[0]]
     out += [{"grid": sp, "mu": mu, "lam": lam, "inverter": "python", "nsub": k}
             for sp in part_grids for k in (2, 3) for mu, lam in ml]
+    # grids with mixed face types (prisms), also partitioned
+    out += [{"grid": sp, "mu": mu, "lam": lam, "inverter": "python"} for sp in PRISMS for mu, lam in ml]
+    out += [{"grid": PRISMS[1], "mu": 1.0, "lam": 10.0, "inverter": "python", "nsub": 2},
+            {"grid": PRISMS[3], "mu": 1.0, "lam": 10.0, "inverter": "python", "eta": 0.25, "reuse": True}]
     # ONE Biot object (and stiffness / coupling objects) reused for two grids
     out += [{"grid": s1, "seq": [kind, s1, s2], "mu": mu, "lam": lam, "inverter": "python"}
             for kind, s1, s2 in G.SEQ_PAIRS_2D + G.SEQ_PAIRS_3D for mu, lam in ml]
